@@ -266,7 +266,18 @@ Definition spec_case (c : case) : sres :=
   end
   end.
 
-Definition prop_case (c : case) (observed : result) : bool := res_ok (spec_case c) observed.
+(* C10: two values of one type; observed [eq; tokens a; tokens b]: eq must be numeric equality,
+   and equal values must have fed identical tokens to the Hasher *)
+Definition prop_hash_pair (c : case) (observed : result) : bool :=
+  match sval c 0, sval c 1, observed with
+  | Some (_, a), Some (_, b), Ok [IN e; IL ha; IL hb] =>
+      let eq := bval a =? bval b in
+      (e =? b2n eq) && (negb eq || list_eqb ha hb)
+  | _, _, _ => false
+  end.
+
+Definition prop_case (c : case) (observed : result) : bool :=
+  if c_op c =? 37 then prop_hash_pair c observed else res_ok (spec_case c) observed.
 
 (* for the driver's messages: the required result rendered as a pseudo result (a vector is
    shown as a dynamic one holding its value in a single big word) *)
